@@ -186,6 +186,7 @@ func Boot(sc *Scenario) (*World, error) {
 	})
 	// package-level channels / timers of the system are made anew, inside this run's bubble
 	rt.RunBootHooks()
+	rt.ResetPools()
 	// every run starts with the dictionaries of a freshly started process
 	dict.Default = pristineDict.SimClone()
 	logger.Log.SetLevel(logrus.ErrorLevel)
